@@ -204,7 +204,7 @@ def _segs(mo):
 
 class C01(CoreCheck):
     pid = "C01"
-    codes = [(100, 200), (1101, 1103), (1801, 1802)]
+    codes = [(100, 200), (1101, 1103), (1104, 1105), (1801, 1802)]
     profiles = ["fd", "mixed", "event", "task", "timer"]
     coq_extra = ["theories/Core/CoreInv.vo", "theories/Core/CoreRel.vo"]
     rule = ("seeded scenarios over all object kinds with several objects due in one iteration and handler scripts that unregister/free "
@@ -224,7 +224,7 @@ class C01(CoreCheck):
 class C02(CoreCheck):
     pid = "C02"
     leaf = True
-    codes = [(200, 300)]
+    codes = [(200, 300), (1104, 1105)]
     profiles = ["fd", "fd", "mixed"]
     rule = ("handler toggling histories (NULL->h->NULL->h within and across iterations), conditions raised before/after registration, "
             "HUP/ERR-only conditions, error-only handlers; non-trivial = >= 1 descriptor callback and >= 1 set-handler action after iv_main "
